@@ -42,7 +42,7 @@ m = dict(
                   kind_free_text="Coq 8.16.1 theorems over an executable Gallina model (coq/Model, coq/Proofs, coq/Properties); the model is tied to /repo on every run by a correspondence check evaluated inside Coq (vm_compute) on cases the harness generates and runs through the implementation")],
     checks=checks,
     not_applicable=na,
-    notes="fix: commits in /repo (genuine defects found by the checks): " + "; ".join(FIX_COMMITS),
+    notes="fix: commits in /repo (genuine defects found by the checks; details in known_findings.json and DESIGN.md §8.4): " + "; ".join("%s (%s)" % (f["commit"], f["property"]) for f in json.load(open("/verif/known_findings.json"))["fixed"]),
 )
 json.dump(m, open("/verif/MANIFEST.json", "w"), indent=1)
 print("checks:", [c["property_id"] for c in checks], "n/a:", [x["property_id"] for x in na])
